@@ -182,7 +182,10 @@ package octosql
 //@   loop 1 invariant allkept: forall(j, 0, $k, t.Union.Alternatives[j].TypeID != 0) ==> len(outAlternatives) == $k
 //@   loop 1 invariant somedropped: exists(j, 0, $k, t.Union.Alternatives[j].TypeID == 0) ==> len(outAlternatives) < $k
 //@   loop 1 step keep: len(outAlternatives) == old(len(outAlternatives)) + ite(alternative.TypeID != 0, 1, 0) && (alternative.TypeID != 0 ==> same(outAlternatives[len(outAlternatives)-1], alternative))
+//@   loop 1 invariant first: ($k >= 1 && t.Union.Alternatives[0].TypeID != 0 ==> len(outAlternatives) >= 1 && same(outAlternatives[0], t.Union.Alternatives[0])) && ($k >= 2 && t.Union.Alternatives[0].TypeID == 0 && t.Union.Alternatives[1].TypeID != 0 ==> len(outAlternatives) >= 1 && same(outAlternatives[0], t.Union.Alternatives[1])) && ($k >= 1 && t.Union.Alternatives[0].TypeID == 0 ==> len(outAlternatives) <= $k - 1)
 //@   ensures identity: t.TypeID != 10 ==> same(result, t)
+//@   ensures unwrap.first: t.TypeID == 10 && len(t.Union.Alternatives) == 2 && t.Union.Alternatives[0].TypeID != 0 && t.Union.Alternatives[1].TypeID == 0 ==> same(result, t.Union.Alternatives[0])
+//@   ensures unwrap.second: t.TypeID == 10 && len(t.Union.Alternatives) == 2 && t.Union.Alternatives[0].TypeID == 0 && t.Union.Alternatives[1].TypeID != 0 ==> same(result, t.Union.Alternatives[1])
 //@   ensures nonull: t.TypeID == 10 && result.TypeID == 10 ==> forall(j, 0, len(result.Union.Alternatives), result.Union.Alternatives[j].TypeID != 0)
 //@   ensures nonnullable: t.TypeID == 10 && forall(j, 0, len(t.Union.Alternatives), t.Union.Alternatives[j].TypeID != 0) && len(t.Union.Alternatives) != 1 ==> result.TypeID == 10 && len(result.Union.Alternatives) == len(t.Union.Alternatives)
 //@   ensures drops: t.TypeID == 10 && exists(j, 0, len(t.Union.Alternatives), t.Union.Alternatives[j].TypeID == 0) ==> result.TypeID != 10 || len(result.Union.Alternatives) < len(t.Union.Alternatives)
